@@ -104,12 +104,16 @@ def strip_comments(src):
 
 def source_scan(rep):
     bad = []
-    for root, dirs, files in os.walk(COQ):
-        dirs[:] = [d for d in dirs if not d.startswith(".")]
-        for fn in files:
-            if not fn.endswith(".v"):
+    # every file of the development: the static build, the regenerated files and the theorem files compiled by the checks
+    listed = [f for f in open(os.path.join(COQ, "_CoqProject")).read().split() if f.endswith(".v")]
+    listed += ["Properties/" + f for f in os.listdir(os.path.join(COQ, "Properties")) if f.endswith(".v")]
+    if os.path.isdir(os.path.join(COQ, "Gen")):
+        listed += ["Gen/" + f for f in os.listdir(os.path.join(COQ, "Gen")) if f.endswith(".v") and "cases" not in f]
+    for rel in sorted(set(listed)):
+        if True:
+            path = os.path.join(COQ, rel)
+            if not os.path.exists(path):
                 continue
-            path = os.path.join(root, fn)
             src = strip_comments(open(path).read())
             depth = 0
             for ln, line in enumerate(src.split("\n"), 1):
@@ -148,29 +152,13 @@ def theorem_names(path):
     return re.findall(r"^\s*(?:Theorem|Lemma|Corollary|Example)\s+([A-Za-z0-9_']+)", src, re.M)
 
 
-def check_obligations(rep, pid, extra_targets=()):
-    """Build and re-check Properties/<pid>.v; fill obligations/discharged/axioms."""
-    prop = "Properties/%s.v" % pid
-    names = theorem_names(os.path.join(COQ, prop))
-    rep.cov["obligations"] = len(names)
-    rep.cov["theorems"] = names
-    rep.cov["checker_cmd"] = "make -C coq -j16 Properties/%s.vo && coqc -Q coq CV coq/%s  (Coq 8.16.1, full .vo build)" % (pid, prop)
-    ok, out = coq_make(["Properties/%s.vo" % pid] + list(extra_targets), rep)
-    if not ok:
-        # which theorem/file?
-        m = re.search(r'File "\./([^"]+)", line (\d+)', out)
-        where = "%s:%s" % (m.group(1), m.group(2)) if m else "?"
-        rep.broken.append(("proof", "build of Properties/%s.vo failed at %s\n%s" % (pid, where, out[-3000:])))
-        rep.say("proof obligations: BUILD FAILED at", where)
-        rep.cov["discharged"] = 0
-        return False
-    with Lock(os.path.join(COQ, ".lock")):
-        rc, out = run(["coqc", "-Q", ".", "CV", "-w", "-notation-overridden", prop], cwd=COQ, timeout=1200)
-    if rc != 0:
-        rep.broken.append(("proof", "re-check of %s failed\n%s" % (prop, out[-3000:])))
-        rep.cov["discharged"] = 0
-        return False
-    closed = out.count("Closed under the global context")
+def property_files(pid):
+    """Properties/<pid>.v and Properties/<pid>_*.v that are part of the static build."""
+    proj = open(os.path.join(COQ, "_CoqProject")).read().split()
+    return [f for f in proj if re.match(r"Properties/%s(_\w+)?\.v$" % pid, f)]
+
+
+def parse_axioms(out):
     axioms = set()
     in_block = False
     for line in out.split("\n"):
@@ -186,18 +174,52 @@ def check_obligations(rep, pid, extra_targets=()):
                 axioms.add(m.group(1))
             else:
                 in_block = False
-    naxblocks = out.count("Axioms:")
+    return axioms
+
+
+def check_obligations(rep, pid, extra_targets=()):
+    """Build and re-check the property's theorem files; fill obligations/discharged/axioms."""
+    files = property_files(pid)
+    if not files:
+        rep.broken.append(("proof", "no theorem file Properties/%s*.v in the build" % pid))
+        return False
+    names = []
+    for f in files:
+        names += theorem_names(os.path.join(COQ, f))
+    rep.cov["obligations"] = len(names)
+    rep.cov["theorems"] = names
+    rep.cov["checker_cmd"] = "make -C coq -j16 %s && coqc -Q coq CV %s  (Coq 8.16.1, full .vo build)" % (
+        " ".join(f + "o" for f in files), " ".join("coq/" + f for f in files))
+    ok, out = coq_make([f + "o" for f in files] + list(extra_targets), rep)
+    if not ok:
+        m = re.search(r'File "\./([^"]+)", line (\d+)', out)
+        where = "%s:%s" % (m.group(1), m.group(2)) if m else "?"
+        rep.broken.append(("proof", "build of %s failed at %s\n%s" % (" ".join(files), where, out[-3000:])))
+        rep.say("proof obligations: BUILD FAILED at", where)
+        rep.cov["discharged"] = 0
+        return False
+    axioms = set()
+    blocks = 0
+    for f in files:
+        with Lock(os.path.join(COQ, ".lock")):
+            rc, out = run(["coqc", "-Q", ".", "CV", "-w", "-notation-overridden", f], cwd=COQ, timeout=1200)
+        if rc != 0:
+            rep.broken.append(("proof", "re-check of %s failed\n%s" % (f, out[-3000:])))
+            rep.cov["discharged"] = 0
+            return False
+        blocks += out.count("Closed under the global context") + out.count("Axioms:")
+        axioms |= parse_axioms(out)
     rep.cov["axioms"] = sorted(axioms)
-    rep.cov["print_assumptions_blocks"] = closed + naxblocks
+    rep.cov["print_assumptions_blocks"] = blocks
     unknown = [a for a in axioms if a not in AXIOM_ALLOW]
     if unknown:
         rep.broken.append(("proof", "axioms outside the allow-list: %s" % unknown))
         rep.cov["discharged"] = 0
         return False
-    if closed + naxblocks < len(names):
-        rep.broken.append(("proof", "%s: %d theorems but only %d Print Assumptions blocks" % (prop, len(names), closed + naxblocks)))
+    if blocks < len(names):
+        rep.broken.append(("proof", "%s: %d theorems but only %d Print Assumptions blocks" % (files, len(names), blocks)))
     rep.cov["discharged"] = len(names)
-    rep.say("proof obligations: %d theorems in %s re-checked; axioms: %s" % (len(names), prop, sorted(axioms) or "none"))
+    rep.say("proof obligations: %d theorems in %s re-checked; axioms: %s" % (len(names), " ".join(files), sorted(axioms) or "none"))
     return True
 
 
